@@ -63,6 +63,12 @@ TABLE = {
  "C18": [("Proofs/StructBound", n) for n in ["pop_bound_sound", "pop_bound_bounded", "core_bounded_crun", "view_bounded_state_after", "sma_pop", "cyber_pop"]] +
         [("Proofs/StructSched", n) for n in ["sched_pop_bound", "sched_pop_bounded"]],
 }
+EXTRA12 = {
+ "C13": [("Proofs/WdriftP", n) for n in ["wr_s_drift", "wr_var_drift"]] + [("Proofs/WdriftB64", n) for n in ["wr_s_drift_b64", "wr_var_drift_b64"]],
+ "C16": [("Proofs/WdriftP", n) for n in ["welford_mean_drift", "welford_m2_drift", "wr_s_drift", "wr_var_drift"]] +
+        [("Proofs/WdriftB64", n) for n in ["welford_mean_drift_b64", "welford_m2_drift_b64"]],
+ "C02": [("Proofs/WdriftB64", n) for n in ["welford_mean_drift_b64", "welford_m2_drift_b64"]],
+}
 EXTRA11 = {
  "C16": [("Proofs/FAccBase", "sub_sign_exact")] + [("Proofs/FAccHln", n) for n in ["hln_state_exact", "hln_f64_accuracy", "hln_f64_accuracy_refuted"]] +
         [("Proofs/FAccNet", "net_f64_correctly_rounded")] + [("Proofs/FAccRsi", "rsi_f64_accuracy_partial")] + [("Proofs/FAccMy", "myrsi_f64_accuracy_refuted")],
@@ -176,7 +182,7 @@ def header_of(path, name):
     return " ".join(m.group(1).split())
 
 def _merge_extra():
-    for ex in (EXTRA2, EXTRA3, EXTRA4, EXTRA5, EXTRA6, EXTRA7, EXTRA8, EXTRA9, EXTRA10, EXTRA11):
+    for ex in (EXTRA2, EXTRA3, EXTRA4, EXTRA5, EXTRA6, EXTRA7, EXTRA8, EXTRA9, EXTRA10, EXTRA11, EXTRA12):
         for k, v in ex.items():
             EXTRA[k] = EXTRA.get(k, []) + v
 
